@@ -501,16 +501,8 @@ def model_step(pre, op):
                 alt["vl"][x].remove(l)
                 alt["vl"][x].append(l)
                 outs.append(alt)
-        # an old end that is still an end (it is the other end too): own position slack
-        if old is not None and old in lv[l] and old != x:
-            more = []
-            for o in outs:
-                alt = copy.deepcopy(o)
-                if l in alt["vl"][old]:
-                    alt["vl"][old].remove(l)
-                    alt["vl"][old].append(l)
-                    more.append(alt)
-            outs += more
+        # an old end that is still an end (the link was a self-loop) is, by the statement, NOT detached:
+        # its own list, like everybody else's, stays exactly as it was -- no slack here
         return [(o, ("ret", None)) for o in outs]
     if k == "unlink":
         a, b, d = op[1], op[2], op[3]
